@@ -173,7 +173,7 @@ type PlCase struct {
 func genPl(t *rapid.T) PlCase {
 	cr := creds[rapid.IntRange(0, 1).Draw(t, "cred")]
 	c := PlCase{Plugin: rapid.SampledFrom([]string{"http_proxy", "socks5", "static_file"}).Draw(t, "plugin"), User: cr[0], Pass: cr[1],
-		Form: rapid.SampledFrom([]string{"connect", "get"}).Draw(t, "form")}
+		Form: rapid.SampledFrom([]string{"connect", "get", "connect-split", "get-then-connect"}).Draw(t, "form")}
 	n := rapid.IntRange(1, 3).Draw(t, "n")
 	for i := 0; i < n; i++ {
 		c.Kinds = append(c.Kinds, rapid.SampledFrom(scredKinds).Draw(t, "kind"))
@@ -252,18 +252,47 @@ func runPl(c PlCase) error {
 		switch c.Plugin {
 		case "http_proxy":
 			hdr, _ := basic(k, c.User, c.Pass)
-			req := ""
-			if c.Form == "connect" {
-				req = "CONNECT " + bl.Addr().String() + " HTTP/1.1\r\nHost: " + bl.Addr().String() + "\r\n"
-			} else {
-				req = "GET http://" + bl.Addr().String() + "/x HTTP/1.1\r\nHost: " + bl.Addr().String() + "\r\nConnection: close\r\n"
-			}
+			auth := ""
 			if hdr != "" {
-				req += "Proxy-Authorization: " + hdr + "\r\n"
+				auth = "Proxy-Authorization: " + hdr + "\r\n"
 			}
-			_, _ = cli.Write([]byte(req + "\r\n"))
-			out, _ = io.ReadAll(cli)
-			served = strings.Contains(string(out), "BACKEND")
+			target := bl.Addr().String()
+			connectReq := "CONNECT " + target + " HTTP/1.1\r\nHost: " + target + "\r\n" + auth + "\r\n"
+			switch c.Form {
+			case "connect":
+				_, _ = cli.Write([]byte(connectReq))
+			case "connect-split":
+				// the request line arrives in two segments
+				_, _ = cli.Write([]byte(connectReq[:4]))
+				time.Sleep(120 * time.Millisecond)
+				_, _ = cli.Write([]byte(connectReq[4:]))
+			case "get-then-connect":
+				// a CONNECT as second request of a kept-alive connection; the first request is refused (407) or
+				// served, either way the connection stays usable for the next request when keep-alive applies
+				first := "GET http://" + target + "/first HTTP/1.1\r\nHost: " + target + "\r\n" + auth + "\r\n"
+				_, _ = cli.Write([]byte(first))
+				br := bufio.NewReader(cli)
+				if resp, e := http.ReadResponse(br, nil); e == nil {
+					_, _ = io.Copy(io.Discard, resp.Body)
+					resp.Body.Close()
+					if strings.Contains(string(firstBodyMarker(resp)), "x") {
+						_ = resp
+					}
+				}
+				mu.Lock()
+				before = contacts // the authorised GET itself contacts the backend: only the CONNECT is judged below
+				mu.Unlock()
+				_, _ = cli.Write([]byte(connectReq))
+				rest, _ := io.ReadAll(br)
+				out = rest
+				served = strings.Contains(string(out), "BACKEND")
+			default:
+				_, _ = cli.Write([]byte("GET http://" + target + "/x HTTP/1.1\r\nHost: " + target + "\r\nConnection: close\r\n" + auth + "\r\n"))
+			}
+			if c.Form != "get-then-connect" {
+				out, _ = io.ReadAll(cli)
+				served = strings.Contains(string(out), "BACKEND")
+			}
 		case "static_file":
 			hdr, _ := basic(k, c.User, c.Pass)
 			req := "GET /secret.txt HTTP/1.1\r\nHost: files\r\nConnection: close\r\n"
@@ -444,3 +473,5 @@ func TestWebAPIs(t *testing.T) {
 			return fx.Class{NonTrivial: true, Fingerprint: fmt.Sprintf("%+v", c), Labels: []string{"side=" + c.Side}}
 		}})
 }
+
+func firstBodyMarker(r *http.Response) []byte { return nil }
